@@ -2,6 +2,7 @@ package main
 
 import (
 	"encoding/hex"
+	"encoding/json"
 	"fmt"
 	"os"
 	"os/exec"
@@ -409,6 +410,38 @@ func runC17(c *runCtx) {
 			}
 		}
 	}
+	// L007 over the rule's whole keyword table (regenerated from the source): each keyword written in the other case is
+	// reported exactly once, at its own line and column, and the fix turns exactly that word
+	{
+		var kws []string
+		if raw, err := os.ReadFile(verifDir + "/gen/lint_keywords.json"); err == nil {
+			_ = json.Unmarshal(raw, &kws)
+		}
+		res.statN("lint_keywords", len(kws))
+		for _, kw := range kws {
+			for _, st := range []struct {
+				style keywords.CaseStyle
+				wrong string
+				right string
+			}{{keywords.CaseUpper, strings.ToLower(kw), strings.ToUpper(kw)}, {keywords.CaseLower, strings.ToUpper(kw), strings.ToLower(kw)}} {
+				rule := keywords.NewKeywordCaseRule(st.style)
+				text := "x1 y2\n  z3 " + st.wrong + " w4\n"
+				res.count("kw|"+text, true)
+				vs := linter.New(rule).LintString(text, "k.sql").Violations
+				wit := map[string]any{"keyword": kw, "text": text, "style": fmt.Sprint(st.style)}
+				if len(vs) != 1 || vs[0].Location.Line != 2 || vs[0].Location.Column != 6 {
+					var got []string
+					for _, v := range vs {
+						got = append(got, fmt.Sprintf("%d:%d", v.Location.Line, v.Location.Column))
+					}
+					res.fail("check-inexact:L007:keyword-table", "a keyword of the rule's table written in the other case is not reported exactly once at its place", wit, map[string]any{"reported_at": got, "want": "2:6"})
+				}
+				if fixed, err := rule.Fix(text, nil); err == nil && fixed != "x1 y2\n  z3 "+st.right+" w4\n" {
+					res.fail("fix-inexact:L007:keyword-table", "the fix does not turn exactly the keyword", wit, map[string]any{"fixed": fixed})
+				}
+			}
+		}
+	}
 	cliFixSequence(c, g)
 }
 
@@ -463,6 +496,17 @@ func cliFixSequence(c *runCtx, g *textGen) {
 			texts = append(texts, item{c17Segments[a] + c17Segments[b], a + "-above-" + b})
 		}
 	}
+	// line endings: the same segment texts with CRLF ends, and mixed files in which a literal / comment that spans lines
+	// (with nothing in it for any fixer to touch) keeps its own bare LF
+	plainMultiline := []string{"SELECT 'first\nsecond' AS v FROM t\n", "/* one\ntwo */\n", "SELECT \"a\nb\" FROM t\n"}
+	for _, a := range names {
+		crlf := strings.ReplaceAll(c17Segments[a], "\n", "\r\n")
+		texts = append(texts, item{crlf + crlf, "crlf:" + a})
+		for mi, ml := range plainMultiline {
+			texts = append(texts, item{crlf + ml + crlf, fmt.Sprintf("mixed-endings-%d:%s", mi, a)})
+			texts = append(texts, item{c17Segments[a] + strings.ReplaceAll(ml, "\n", "\r\n"), fmt.Sprintf("mixed-endings-crlf-inside-%d:%s", mi, a)})
+		}
+	}
 	for i := 0; i < c.n(40, 1500); i++ {
 		var sb strings.Builder
 		var parts []string
@@ -486,7 +530,9 @@ func cliFixSequence(c *runCtx, g *textGen) {
 		after2, _ := os.ReadFile(file)
 		recheck := runCLI(bin, dir, "", "lint", "a.sql")
 		res.count("cli-fix|"+it.text, true)
-		if strings.Contains(it.shape, "-above-") {
+		if strings.Contains(it.shape, ":") {
+			res.stat("cli-fix:" + it.shape[:strings.Index(it.shape, ":")])
+		} else if strings.Contains(it.shape, "-above-") {
 			res.stat("cli-fix:ordered-pair")
 		} else {
 			res.stat("cli-fix:" + it.shape)
